@@ -19,6 +19,9 @@ use linfa::DatasetBase;
 use ndarray::{Array1, Array2, Axis};
 use std::collections::{BTreeMap, HashMap};
 
+#[path = "c20_more.rs"]
+mod more;
+
 // ------------------------------------------------------------------------------------------------
 // digests
 
@@ -80,6 +83,8 @@ struct Data {
     q: Array2<f64>,
     qlat: Array2<f64>,
     texts: Array1<String>,
+    /// documents over fixed-width tokens: several new words per document, many equal document frequencies
+    tie_texts: Array1<String>,
     nclass: usize,
 }
 
@@ -192,7 +197,17 @@ fn make_data(seed: u64, thorough: bool) -> Data {
             })
             .collect(),
     );
-    Data { blobs, small, lat, lat_y, lat_w, counts, rx, ry, ry2, rb, rc, q, qlat, texts, nclass }
+    let ntie = 4 + r.below(6);
+    let nvoc = 5 + r.below(5);
+    let tie_texts = Array1::from_vec(
+        (0..ntie)
+            .map(|_| {
+                let len = 2 + r.below(5);
+                (0..len).map(|_| format!("w{:02}", r.below(nvoc))).collect::<Vec<_>>().join(" ")
+            })
+            .collect(),
+    );
+    Data { blobs, small, lat, lat_y, lat_w, counts, rx, ry, ry2, rb, rc, q, qlat, texts, tie_texts, nclass }
 }
 
 // ------------------------------------------------------------------------------------------------
@@ -568,6 +583,9 @@ fn battery() -> Vec<Item> {
         Item { name: "vectorizers", parallel: false, f: it_countvec },
         Item { name: "dataset_utils", parallel: false, f: it_dataset },
     ]
+    .into_iter()
+    .chain(more::items())
+    .collect()
 }
 
 fn data_seeds(seed: u64, thorough: bool) -> Vec<u64> {
@@ -671,7 +689,9 @@ fn estimator_runs(em: &mut Em, seed: u64) {
             let key = format!("{}@{}", item.name, ds);
             let class = format!("est={}", item.name);
             let op = format!("#run est={} data={} tier={}", item.name, ds, if thorough { "thorough" } else { "quick" });
-            let pools: &[usize] = if item.parallel || thorough { &pools_all } else { &pools_few };
+            // every item under every pool size, in both tiers (a loop parallelised tomorrow is not marked `parallel` today)
+            let _ = (&pools_few, item.parallel);
+            let pools: &[usize] = &pools_all;
             let children: Vec<Option<Vec<(String, String)>>> = child_digests.iter().map(|c| c.get(&key).cloned()).collect();
             em.count(&format!("est:{}", item.name));
             let wanted = em.only.map(|o| o == em.idx).unwrap_or(true);
@@ -681,6 +701,10 @@ fn estimator_runs(em: &mut Em, seed: u64) {
             }
             if wanted && base.iter().any(|x| x.0.ends_with("error")) {
                 em.count(&format!("est_fit_error:{}", item.name));
+            }
+            // coverage floor: learned quantities actually compared (sections that are neither a panic nor an error)
+            if wanted {
+                em.count_n(&format!("est_sections:{}", item.name), base.iter().filter(|x| x.0 != "panic" && !x.0.ends_with("error")).count() as u64);
             }
             em.case(op, |ctx| {
                 // a panic / fit error is not a determinism failure (it must merely be the same on every run);
@@ -855,7 +879,13 @@ fn modal_cases(em: &mut Em, rng: &mut Rng) {
             ctx.require(results.iter().all(|r| *r == r0), "hash_order_independent", class, || format!("find_modal_class returned {:?} on 8 equal maps", results));
             let f0 = keys.iter().position(|k| *k == r0).map(|i| freqs[i]);
             ctx.require(f0 == Some(maxf), "modal_is_max", class, || format!("returned {} with frequency {:?}, maximum {}", r0, f0, maxf));
-            format!("ok {}", r0)
+            // the statement promises the same class on every run, not a particular tie-break: with tied
+            // maxima only the frequency of the returned class is compared with the model
+            if nmax > 1 {
+                format!("ok tie max={}", (f0.unwrap_or(-1.0) * 2.0) as i64)
+            } else {
+                format!("ok {}", r0)
+            }
         });
     }
 }
@@ -936,7 +966,15 @@ fn nb_cases(em: &mut Em, rng: &mut Rng) {
                 let pi = classes.iter().position(|c| *c == r0[i]);
                 ctx.require(pi.map(|p| jll[p][i]) == Some(mx), "argmax_is_max", class, || format!("sample {} predicted {} which is not a maximiser", i, r0[i]));
             }
-            format!("ok {}", list(r0.iter(), |x| x.to_string()))
+            // a sample whose maximum is attained by several classes: any of them, but the same on every
+            // run (checked above); compared with the model as `t`
+            let toks: Vec<String> = (0..n)
+                .map(|i| {
+                    let mx = (0..k).map(|c| jll[c][i]).fold(f64::MIN, f64::max);
+                    if (0..k).filter(|c| jll[*c][i] == mx).count() > 1 { "t".to_string() } else { r0[i].to_string() }
+                })
+                .collect();
+            format!("ok {}", toks.join(","))
         });
     }
 }
@@ -1037,8 +1075,22 @@ fn hier_cases(em: &mut Em, rng: &mut Rng) {
                     seen += 1;
                 }
             }
-            ctx.require(canon, "ids_by_smallest_member", &class, || format!("labels {:?} are not numbered by smallest member", l));
-            format!("ok {}", list(l.iter(), |x| x.to_string()))
+            // the numbering of the clusters is not promised by the statement (only that it is the same on
+            // every run): the partition is compared with the model up to renaming (ids renumbered by first
+            // appearance); whether the implementation's own numbering is already that one is only counted
+            let _ = canon;
+            let mut ren: Vec<(usize, usize)> = vec![];
+            let canonical: Vec<usize> = l
+                .iter()
+                .map(|v| match ren.iter().find(|r| r.0 == *v) {
+                    Some(r) => r.1,
+                    None => {
+                        ren.push((*v, ren.len()));
+                        ren.len() - 1
+                    }
+                })
+                .collect();
+            format!("ok {}", list(canonical.iter(), |x| x.to_string()))
         });
     }
 }
@@ -1085,5 +1137,7 @@ pub fn run(em: &mut Em, rng: &mut Rng) {
     labels_cases(em, rng);
     hier_cases(em, rng);
     rng_clone_cases(em, rng);
+    more::vocab_cases(em, rng);
+    more::rng_clone_more(em, rng);
     estimator_runs(em, seed);
 }
